@@ -128,6 +128,7 @@ func (s *clientState) raceRun(tok []string) (res string) {
 			cfgs = append(cfgs, c)
 		}
 		proxy.VerifSetTimings(hour, hour, hour)
+		s.tr.configured(tok[3:])
 		s.pm.UpdateAll(cfgs)
 		return "-"
 	case "close":
@@ -237,6 +238,8 @@ func (s *clientState) race(kind string, aTok, bTok []string) string {
 	unsettled := ""
 	before := s.snapshot()
 	s.tr.take()
+	s.tr.setRelaxed(true) // a registration built just before the other operation's reload carries the previous configuration
+	defer s.tr.setRelaxed(false)
 	s.tr.arm(kind)
 
 	// ---- A, until it has finished or one of its goroutines is held in Send
